@@ -4,6 +4,7 @@ from sa.lib import *
 from sa.exc import ExcAnalysis
 from sa.dataflow import cmp_key
 
+TECHNIQUE = 'static analysis (ast): interprocedural may-raise analysis of EndOfEpisodeError with handler matching and constant-argument refinement, guard rules (CMP normal form of NLV <= 0, done-latch typestate), quote-delivery clauses shared with C14 / C18'
 EXPLANATION = (
     "Decides the structural clauses of C09: (S1) Broker.net_liquidation_value raises EndOfEpisodeError exactly under "
     "`raise_if_broke and nlv <= 0` (non-strict), default raise_if_broke=True, and the raise guards every return; "
